@@ -19,7 +19,10 @@ print("| seeded change | needs, to manifest | caught by |")
 print("|---|---|---|")
 for d in sorted(glob.glob(os.path.join(V, "seeded", "*", "meta.json"))):
     m = json.load(open(d))
-    print("| `%s` | %s | %s |" % (os.path.basename(os.path.dirname(d)), m["needs_to_manifest"].replace("|", "/"), "; ".join(m["caught_by"]).replace("|", "/")))
+    caught = "; ".join(m["caught_by"]).replace("|", "/")
+    if "retired" in m:
+        caught = "*retired (predates fix 2ad16a0, its mechanism no longer exists; not counted)* — was: " + caught
+    print("| `%s` | %s | %s |" % (os.path.basename(os.path.dirname(d)), m["needs_to_manifest"].replace("|", "/"), caught))
 print("\n### 14.2 Seeded-mutant controls (`selftest/mutants/`, kind = break)\n")
 print("| control | what it does | property → rule that fires |")
 print("|---|---|---|")
@@ -40,4 +43,4 @@ for mid in sorted(rows):
     print("| `%s` | %s | %s%s |" % (mid, w.replace("|", "/"), ", ".join(p for p, st, r in rows[mid]), (" **NOT QUIET: %s**" % bad) if bad else ""))
 nb = sum(1 for k, (kind, _) in why.items() if kind == "break")
 npv = sum(1 for k, (kind, _) in why.items() if kind == "preserve")
-print("\nTotals: %d breaking controls, %d behaviour-preserving controls, %d independently seeded changes." % (nb, npv, len(glob.glob(os.path.join(V, "seeded", "*", "meta.json")))))
+print("\nTotals: %d breaking controls, %d behaviour-preserving controls, %d independently seeded changes." % (nb, npv, sum(1 for d in glob.glob(os.path.join(V, "seeded", "*", "meta.json")) if "retired" not in json.load(open(d)))))
